@@ -498,28 +498,25 @@ Proof.
 Qed.
 
 (** * C12: the artifact tree names the files that are there afterwards *)
-Lemma listed_is_surviving : forall n pre, all_uploadable n = true -> listed_files pre n = surviving_files pre n.
+Lemma listed_is_surviving : forall n pre, listed_files pre n = surviving_files pre n.
 Proof.
-  fix IH 1. intros [nm k|nm cs] pre H.
-  - cbn in *. rewrite H. cbn. destruct (editor_temp nm); reflexivity.
-  - cbn [listed_files surviving_files]. cbn [all_uploadable] in H.
+  fix IH 1. intros [nm k|nm cs] pre.
+  - unfold listed_files. cbn. destruct (editor_temp nm), k; reflexivity.
+  - unfold listed_files. cbn [listed_files_gen surviving_files]. fold listed_files.
     induction cs as [|c cs IHcs]; [reflexivity|].
-    cbn [forallb] in H. apply andb_true_iff in H as [H1 H2].
-    cbn [flat_map]. f_equal; [apply IH; exact H1|apply IHcs; exact H2].
+    cbn [flat_map]. f_equal; [apply IH|apply IHcs].
 Qed.
 
-(** When the run directory holds only regular files and symbolic links, the
-    files in the artifact tree are exactly the files that survive the removal
-    of the non-uploadable ones. *)
-Theorem listed_tree_is_what_survives cs :
-  forallb all_uploadable cs = true -> listed_in cs = surviving_in cs.
+(** The files in the artifact tree are exactly the files that survive the
+    removal of the non-uploadable ones - for every content of the run
+    directory. *)
+Theorem listed_tree_is_what_survives cs : listed_in cs = surviving_in cs.
 Proof.
-  unfold listed_in, surviving_in. induction cs as [|c cs IH]; intros H; [reflexivity|].
-  cbn [forallb] in H. apply andb_true_iff in H as [H1 H2]. cbn [flat_map].
-  f_equal; [apply listed_is_surviving; exact H1|apply IH; exact H2].
+  unfold listed_in, surviving_in. induction cs as [|c cs IH]; [reflexivity|].
+  cbn [flat_map]. f_equal; [apply listed_is_surviving|apply IH].
 Qed.
 
 (** Editor temporaries are neither listed nor kept, whatever their kind. *)
 Lemma editor_temp_neither nm k pre : editor_temp nm = true ->
   listed_files pre (NFile nm k) = [] /\ surviving_files pre (NFile nm k) = [].
-Proof. intros H; cbn; rewrite H, andb_false_r; auto. Qed.
+Proof. intros H; unfold listed_files; cbn; rewrite H, andb_false_r; auto. Qed.
